@@ -322,7 +322,7 @@ pub fn check(c: &Case) -> Outcome {
 pub fn def() -> PropDef {
     PropDef {
         id: "C20",
-        rule: "one remote peer on the swarm runtime under tokio's paused clock: the remote handshakes at once, never (only keep-alives arrive), or after 30..359 s of silence; valid handshake + full bitfield (+ optional unchoke so that a piece gets reserved), a second, active peer that holds everything is connected as well and completes a piece whenever the schedule says so (its completions make the manager broadcast Have and cancel / re-assign the silent peer's piece); then up to 30 arrivals (delta-t from {0.5,30,60,119,119.9,120.1,121,200,239,241,300,359,361,500} s and lively spacings 30..119.5 s; kind from keep-alive, choke, unchoke, interested, not-interested, have, request, cancel, unknown-id message), arrivals nudged 0.7 s away from the client's own ticks; then 500 s of silence. Oracle from a small reference reading of the statement: closed by last-other-message + 360 s (+1.5 s), peer forgotten and reservation released; never closed for inactivity while every gap between other messages is < 120 s; exactly one keep-alive read at each t0+120k s while alive, none off schedule. Silences between 120 s and 360 s and the role of unknown-id messages are deliberately unasserted (both readings accepted). Non-trivial = a schedule longer than 360 s with an arrival within 1.5 s of a tick, or a silence > 240 s inside the schedule, or a lively schedule > 360 s; distinct by hash of the case.",
+        rule: "one remote peer on the swarm runtime under tokio's paused clock: the remote handshakes at once, never (only keep-alives arrive), or after 30..359 s of silence; valid handshake + full bitfield (+ optional unchoke so that a piece gets reserved), a second, active peer that holds everything is connected as well and completes a piece whenever the schedule says so (its completions make the manager broadcast Have and cancel / re-assign the silent peer's piece); then up to 30 arrivals (delta-t from {0.5,30,60,119,119.9,120.1,121,200,239,241,300,359,361,500} s and lively spacings 30..119.5 s; kind from keep-alive, choke, unchoke, interested, not-interested, have, request, cancel, unknown-id message), arrivals nudged 0.7 s away from the client's own ticks; in one case out of eight there are no arrivals and the connection's task is instead not scheduled from 110 s to 125..210 s after the start (its first keep-alive tick comes due meanwhile and is served late; the later ticks must stay on the 120 s grid); then 500 s of silence. Oracle from a small reference reading of the statement: closed by last-other-message + 360 s (+1.5 s), peer forgotten and reservation released; never closed for inactivity while every gap between other messages is < 120 s; exactly one keep-alive read at each t0+120k s while alive, none off schedule. Silences between 120 s and 360 s and the role of unknown-id messages are deliberately unasserted (both readings accepted). Non-trivial = a schedule longer than 360 s with an arrival within 1.5 s of a tick, or a silence > 240 s inside the schedule, or a lively schedule > 360 s; distinct by hash of the case.",
         assumptions: &[
             "virtual time: tokio's paused clock; the harness drains sockets every virtual second, so keep-alive timestamps are accurate to 1 s",
             "arrivals closer than 0.3 s to a client tick are moved: their order against the tick is decided by select!'s internal coin",
@@ -332,7 +332,7 @@ pub fn def() -> PropDef {
             cases: |t| t.pick(15_000, 200_000),
             run: |ctx| run_proptest(ctx, "schedules", strategy(), check),
             replay: |v| replay_case::<Case>(v, check),
-            min_class: &[("lively>360s-all-gaps<120s", 0.05), ("arrival-within-1.5s-of-a-tick", 0.1822), ("silence>240s-inside-schedule", 0.0703), ("piece-assigned", 0.15), ("never-handshakes", 0.05), ("late-handshake", 0.05), ("other-peer-completes-pieces-meanwhile", 0.07)],
+            min_class: &[("lively>360s-all-gaps<120s", 0.05), ("arrival-within-1.5s-of-a-tick", 0.1822), ("silence>240s-inside-schedule", 0.0703), ("piece-assigned", 0.15), ("never-handshakes", 0.05), ("late-handshake", 0.05), ("other-peer-completes-pieces-meanwhile", 0.07), ("task-not-scheduled-across-a-tick", 0.05)],
         }],
     }
 }
